@@ -336,6 +336,11 @@ def trace_case(rng, tier, with_aligner=False):
         N, D = min(N, 12), min(D, 3)
     data = mm.make_data(rng, name, K, D, N, lead, shared_labels=with_aligner, separation=6.0 if with_aligner else 2.0)
     init = mm.make_init(rng, K, N, lead, ['positive', 'dirichlet'][int(rng.integers(0, 2))])
+    if not with_aligner and rng.random() < 0.25:
+        key = 'observation' if name in mm.INTEGRATION else 'y'
+        yy = data[key].copy()
+        yy[..., int(rng.integers(0, N)), :] = 0          # a silent frame
+        data[key] = yy
     if with_aligner:
         # common activity pattern over frequency, class order permuted per bin: the aligner has real work to do
         init = mm.permuted_partition_init(rng, data['labels'], K, blur=float(rng.choice([0.1, 0.3])))
@@ -663,8 +668,26 @@ EVAL = {'gauss': eval_gauss, 'ccsg': eval_ccsg, 'vmf': eval_vmf, 'watson': eval_
         'cacgfit': eval_cacgfit, 'bingham': eval_bingham, 'trace': eval_trace, 'repeat': eval_repeat}
 
 
+def _perturb(rp, rng):
+    """silent frames and saliency scales: inside the property's quantifier (all data sets, all non-negative saliencies
+    with positive sum), rarely exercised by ordinary use"""
+    # (not for Bingham: with a zero frame the scatter has trace < 1 and grad log c = scatter is unsolvable)
+    if rp['fn'] in ('ccsg', 'vmf', 'watson', 'cacg', 'gauss') and rng.random() < 0.3:
+        y = np.array(rp['y'])
+        y[..., int(rng.integers(0, y.shape[-2])), :] = 0
+        if rp['fn'] != 'gauss' and rng.random() < 0.5:
+            y[..., 0, :] = 0
+        rp['y'] = y
+    if rp.get('s') is not None and rng.random() < 0.35:
+        rp['s'] = np.array(rp['s']) * float(rng.choice([1e-13, 1e-6, 1e4]))
+
+
 def _mk(rp, name, nontrivial, rng, kind=None):
     import traceback
+    if rp['fn'] in ('gauss', 'ccsg', 'vmf', 'watson', 'cacg', 'bingham'):
+        _perturb(rp, rng)
+        name += ' zero_frames=%d saliency_sum=%.3g' % (int((np.abs(np.array(rp['y'])).sum(-1) == 0).sum()),
+                                                       float(np.sum(rp['s'])) if rp.get('s') is not None else -1)
     try:
         fail, key, coq = EVAL[rp['fn']](rp, rng)
     except Exception as e:
